@@ -2,7 +2,9 @@
    This file holds ONLY the property theorems; each is closed by `exact`.
    [run true (init cap) tr = Some s] ranges over ALL finite interleavings tr of the
    atomic steps of Model/C06.v (Spawn, Insert, Close, Exit, Unregister, Notify, Send,
-   Deliver, Disconnect) for any number of connections, endpoint ids and any queue capacity. *)
+   Deliver, Disconnect, ShutTake, ShutStop) for any number of connections, endpoint ids and any
+   queue capacity.  [live s c] = registered, not taken out of the map by Clients::shutdown, task
+   not ended. *)
 From V Require Import Lib.Base Model.C06 Proofs.C06.
 Import C06.
 Open Scope N_scope.
@@ -40,6 +42,37 @@ Theorem C06_registered_are_live : forall cap tr s,
   forall id c, In c (reg s id) -> live s c /\ eid (conns s c) = id.
 Proof. exact registered_are_live. Qed.
 Print Assumptions C06_registered_are_live.
+
+(* Clients::shutdown takes an entry out of the map: that entry alone disappears, its connections
+   are marked as taken; no sent_to set, no notice, no other connection changes. *)
+Theorem C06_shutdown_takes_entry : forall s id s',
+  step true s (ShutTake id) = Some s' ->
+  reg s' id = [] /\ (forall i, i <> id -> reg s' i = reg s i) /\ sent s' = sent s /\ pending s' = pending s /\
+  (forall c, In c (reg s id) -> taken (conns s' c) = true) /\
+  (forall c, ~ In c (reg s id) -> conns s' c = conns s c).
+Proof. exact shut_take_effect. Qed.
+Print Assumptions C06_shutdown_takes_entry.
+
+(* A STALE unregister — of a connection that is not in the entry of its endpoint — changes
+   nothing: every entry (in particular the new one of a reconnected endpoint: who is active,
+   who is inactive, whether it exists), every sent_to set, the pending notices and every other
+   connection stay as they are. *)
+Theorem C06_stale_unregister_changes_nothing : forall s c s',
+  step true s (Unregister c) = Some s' -> ~ In c (reg s (eid (conns s c))) ->
+  (forall id, reg s' id = reg s id) /\ sent s' = sent s /\ pending s' = pending s /\
+  (forall c', c' <> c -> conns s' c' = conns s c') /\ conns s' c = with_cstate (conns s c) Done.
+Proof. exact stale_unregister_changes_nothing. Qed.
+Print Assumptions C06_stale_unregister_changes_nothing.
+
+(* After any interleaving, a connection taken out of the map by a shutdown is in no entry, so
+   the unregister its actor performs when it ends is stale and changes nothing. *)
+Theorem C06_taken_unregister_is_stale : forall cap tr s c s',
+  run true (init cap) tr = Some s -> taken (conns s c) = true ->
+  step true s (Unregister c) = Some s' ->
+  (forall id, reg s' id = reg s id) /\ sent s' = sent s /\ pending s' = pending s /\
+  (forall c', c' <> c -> conns s' c' = conns s c').
+Proof. exact taken_unregister_changes_nothing. Qed.
+Print Assumptions C06_taken_unregister_is_stale.
 
 (* promotion_and_notices, part 1: a displaced connection is told another one took over
    (when its message queue has room). *)
@@ -107,7 +140,7 @@ Print Assumptions C06_script_states_reachable.
      newest first (C06_registry_is_newest_live with the observed task states);
    - a peer-gone notice for X is among the frames a client received in the operation only
      if X has no entry after it;
-   - if X had an entry before the operation and has none after it, then the active
+   - if X had an entry before the operation, not taken out by a shutdown, and has none after it, then the active
      connection of every endpoint X had sent to, when it is observed running and the queue
      capacity is at least 1, received exactly one peer-gone notice for X in the operation;
    - if a connection that was not registered before is observed in front of the previously
@@ -115,11 +148,14 @@ Print Assumptions C06_script_states_reachable.
      notice in the operation;
    - if the previously active connection c is gone from the observed entry and the most
      recently displaced connection p is observed active, then p (observed running,
-     capacity >= 1) received the healthy notice in the operation. *)
+     capacity >= 1) received the healthy notice in the operation;
+   - a connection is served as long as it is open: every connection observed not running
+     (actor out of its loop, or end of stream seen by the client) is one whose client end
+     closed or that a disconnect / shutdown request named. *)
 Theorem C06_monitor_is_property : forall s0 s1 ob,
   step_ok s0 s1 ob = true <->
   obs_registry_spec s1 ob /\ obs_gone_only_after_last s1 ob /\ obs_gone_delivered s0 s1 ob /\
-  obs_took_over_told s0 s1 ob /\ obs_healthy_told s0 s1 ob.
+  obs_took_over_told s0 s1 ob /\ obs_healthy_told s0 s1 ob /\ obs_ends_explained s1 ob.
 Proof. exact step_ok_spec. Qed.
 Print Assumptions C06_monitor_is_property.
 
